@@ -104,7 +104,7 @@ package keystore
 //@   ensures tx-ghost-frame: in_tx && tx_count == old(tx_count)
 //@ func (*AddrManager).changePrivPassphrase
 //@   requires tx-entry: in_tx
-//@   modifies heap, write_failed
+//@   modifies elems(byte), write_failed, pwChecked[a], lastEq, lastEqA, lastEqB, lastCT, lastCTA, lastCTB, deriveOK, deriveKeyOf
 //@   ensures tx-propagate: write_failed ==> (old(write_failed) || err != nil)
 //@   ensures tx-ghost-frame: in_tx && tx_count == old(tx_count)
 //@ func (*AddrManager).changeRemark
@@ -175,10 +175,11 @@ package keystore
 //@   modifies nothing
 //@ func (EncryptorDecryptor).CopyBytes
 //@   attr trusted
-//@   modifies elems(byte)
+//@   modifies addr(unbox("*cryptoKey", this).CryptoKey)[*]
 //@ func (EncryptorDecryptor).Zero
 //@   attr trusted
-//@   modifies elems(byte)
+//@   modifies addr(unbox("*cryptoKey", this).CryptoKey)[*]
+//@   ensures zeroed: forall j int :: 0 <= j && j < 32 ==> unbox("*cryptoKey", this).CryptoKey[j] == 0
 
 // small pure serialisers used by the writers
 //@ func uint32ToBytes
@@ -197,3 +198,8 @@ package keystore
 //@   loop * invariant tx-clean: (write_failed ==> old(write_failed)) && in_tx && tx_count == old(tx_count)
 //@ func (*AddrManager).setRemark
 //@   requires tx-entry: !in_tx
+
+//@ func defaultNewSecretKey
+//@   requires passphrase != nil && config != nil
+//@   modifies nothing
+//@   ensures err == nil ==> result0 != nil && fresh(result0) && result0.Key != nil && fresh(result0.Key)
